@@ -93,7 +93,7 @@ def conditions(tier: str) -> list[core.Cond]:
             for rules in ({"A": {"mapped": "M", "children": ["C"]}},
                           {"A": {"mapped": "M", "children": ["C"]}, "B": {"mapped": "N", "children": ["C"]}},
                           {"A": {"mapped": "M", "children": []}}):
-                for a in ((False, True) if tier == "thorough" else (True,)):
+                for a in (False, True):
                     times: list[int] = []
                     for i in range(n):
                         times += [10 * i + 1, 10 * i + 14]  # consecutive siblings overlap
